@@ -5,15 +5,18 @@
    all, so independence from them is the statement that every rendering of a tree parses
    back to that tree's inference:
 
-     parse_render (target, text level, shares stage 3 of C04; TESTED on every run by the
+     parse_render (text level, PROVED below as C07_parse_render; also tested on every run by the
        "model renderer" correspondence of tools/props/C07.py):
-       forall ch d, valid_names d -> from_str_m cfg_fixed (render_text ch d) = lift (infer_text d)
+       forall ch d, keys_ok d -> jdepth d <= 256 ->
+         from_str_m cfg_now (render_text ch d) = lift_infer (infer_text d)
+     and, stronger, for ANY two RFC 8259 texts with the same tree (C07_same_tree_same_result).
 
-   What is proved here for all documents: invariance under member order and under the
-   number of repetitions of same-shaped elements. *)
+   Tree level, for all documents: invariance under member order and under the number of
+   repetitions of same-shaped elements. *)
 From Coq Require Import List Bool NArith Permutation.
 Import ListNotations.
-From JS Require Import Model.Base Model.Shape Model.Sem Model.Infer Proofs.InferInvariance.
+From JS Require Import Model.Base Model.Shape Model.Sem Model.Infer Model.Lexer Model.Walk Model.TextApi
+  Model.JsonRef Proofs.InferInvariance Proofs.TextComplete Proofs.RenderKeys.
 
 (* member order: any permutation of distinctly named members gives the same shape *)
 Theorem C07_member_order : forall m m', Permutation m m' -> NoDup (map fst m) ->
@@ -42,6 +45,54 @@ Theorem C07_repetition_count : forall l l' s, l <> [] -> l' <> [] ->
   infer_text (JArr l) = infer_text (JArr l').
 Proof. exact infer_repetition_count. Qed.
 Print Assumptions C07_repetition_count.
+
+(* ---------- text level ----------
+   every rendering of a document (any whitespace incl. CR / CRLF / tab, any number lexeme, any
+   string body with escapes, true / false) whose member names re-read as themselves ([keys_ok];
+   decidable twin [keys_okb]) is converted like the tree *)
+Theorem C07_parse_render : forall ch d, keys_ok d -> jdepth d <= 256 ->
+  from_str_m cfg_now (render_text ch d) = lift_infer (infer_text d).
+Proof. exact parse_render_now. Qed.
+Print Assumptions C07_parse_render.
+
+Theorem C07_render_choice_irrelevant : forall ch ch' d, keys_ok d -> jdepth d <= 256 ->
+  from_str_m cfg_now (render_text ch d) = from_str_m cfg_now (render_text ch' d).
+Proof. exact render_choice_irrelevant_now. Qed.
+Print Assumptions C07_render_choice_irrelevant.
+
+Theorem C07_render_grammatical : forall ch d, keys_ok d -> json_text (render_text ch d) d.
+Proof. exact render_grammatical. Qed.
+Print Assumptions C07_render_grammatical.
+
+Theorem C07_keys_okb_sound : forall d, keys_okb d = true -> keys_ok d.
+Proof. exact keys_okb_ok. Qed.
+Print Assumptions C07_keys_okb_sound.
+
+(* printable ASCII names without quote / backslash satisfy the hypothesis *)
+Theorem C07_ascii_keys_ok : forall d, ascii_keys d = true -> keys_ok d.
+Proof. exact keys_ok_ascii. Qed.
+Print Assumptions C07_ascii_keys_ok.
+
+(* not only the renderer's family: ANY two RFC 8259 texts with the same tree are converted alike *)
+Theorem C07_same_tree_same_result : forall s s' d, json_text s d -> json_text s' d -> jdepth d <= 256 ->
+  from_str_m cfg_now s = from_str_m cfg_now s'.
+Proof. exact same_tree_same_result_now. Qed.
+Print Assumptions C07_same_tree_same_result.
+
+(* a tree-level theorem lifted to texts: member order *)
+Theorem C07_text_member_order : forall s s' m m' sh, json_text s (JObj m) -> json_text s' (JObj m') ->
+  Permutation m m' -> NoDup (map fst m) -> jdepth (JObj m) <= 256 -> jdepth (JObj m') <= 256 ->
+  from_str_m cfg_now s = Ok sh -> from_str_m cfg_now s' = Ok sh.
+Proof. exact text_member_order_now. Qed.
+Print Assumptions C07_text_member_order.
+
+Example C07_text_nonvacuous :
+  let d := JObj [([97%N], JArr [JNum; JStr; JObj []]); ([98; 99]%N, JBool); ([195; 169]%N, JNull)] in
+  keys_okb d = true /\
+  from_str_m cfg_now (render_text [1; 2; 3; 4; 5; 6; 7; 8; 9; 10; 11; 12; 13; 14; 15; 16; 17; 18] d)
+  = from_str_m cfg_now (render_text [] d) /\
+  exists sh, from_str_m cfg_now (render_text [5; 5; 4; 4; 3; 3] d) = Ok sh.
+Proof. vm_compute. repeat split. eexists. reflexivity. Qed.
 
 (* non-vacuity: a three-member object in two orders, nested repetition *)
 Example C07_nonvacuous :
